@@ -124,8 +124,16 @@ def run_job(name, run, *, timeout_ms=60000, max_paths=20000, prune=True, prune_t
         with tr:
             gen = solve.explore(run, max_paths=max_paths, prune=prune, prune_timeout_ms=prune_timeout_ms)
             paths = []
-            for C, out in gen:
-                paths.append((C, out, dict(tr.locals)))
+            cap_hit = False
+            try:
+                for C, out in gen:
+                    paths.append((C, out, dict(tr.locals)))
+            except core.HarnessError as e:
+                if "path cap hit" not in str(e):
+                    raise
+                # the explored paths are still checked (a counterexample on one of them is a counterexample);
+                # the job is reported as incomplete afterwards
+                cap_hit = True
         res["functions"] = sorted(tr.funcs)
         witnessed = set()
         conc_runs = {}  # path index -> list of (values, concolic ctx, concolic Out)
@@ -264,6 +272,8 @@ def run_job(name, run, *, timeout_ms=60000, max_paths=20000, prune=True, prune_t
             res["queries"] += C.queries
             res["solver_time"] += C.solver_time
         Ctx.current = None
+        if cap_hit:
+            res["error"] = f"HarnessError: path cap hit: more than {max_paths} paths; only the first {len(paths)} were explored and checked"
     except BaseException as e:  # noqa
         if isinstance(e, (KeyboardInterrupt, SystemExit)):
             raise
